@@ -255,6 +255,17 @@ func checkCallbackCase(c CallbackCase, o *vt.Obs) error {
 	cbXfer := nXfer >= 2 // the payment (or the reward) itself and the one made by the callback
 	present := map[string]bool{"put": cbStorage, "lput": cbStorage, "notify": cbNotif, "call": cbCall, "xfer": cbXfer}[c.Action]
 
+	// 0. "a context without the allow-call flag never calls a contract": NEO.vote needs States|AllowNotify only, yet it
+	// makes GAS mint the voter's reward and GAS calls onNEP17Payment of a voting CONTRACT. When the native context
+	// holds no AllowCall and the callback demonstrably ran, that clause is broken (listed finding, same in the
+	// reference implementation).
+	if (c.Trigger == "vote" || c.Trigger == "votesafe") && reached && native&fCall == 0 && out.Halt && (present || c.Action == "flags") {
+		if strictNoCall || !vt.Known(knownNativeNoCall) {
+			return fmt.Errorf("%s: the native context held %s (no AllowCall), yet the deployed contract %s was called from it and ran its action: %s", where, flagName(native), targetName, out)
+		}
+		o.Excluded()
+		o.Label("excl:" + knownNativeNoCall)
+	}
 	// 1. confinement, judged on effects
 	if out.Halt {
 		if cbFlags&fWrite == 0 && cbStorage {
@@ -297,6 +308,31 @@ func checkCallbackCase(c CallbackCase, o *vt.Obs) error {
 		o.NonTrivial()
 	}
 	return nil
+}
+
+// knownNativeNoCall: see known_findings.json.
+const knownNativeNoCall = "native-without-allowcall-calls-contract"
+
+// strictNoCall switches the exclusion off (probe).
+var strictNoCall bool
+
+// probeNativeNoCall re-confirms the listed finding with a fixed case.
+func probeNativeNoCall() {
+	if !vt.Known(knownNativeNoCall) {
+		return
+	}
+	strictNoCall = true
+	defer func() { strictNoCall = false }()
+	err := checkCallbackCase(CallbackCase{Trigger: "vote", G: fAll, F: fRead | fWrite | fNotify, Action: "put"}, &vt.Obs{})
+	if err == nil {
+		fmt.Println("C16 probe " + knownNativeNoCall + ": the recorded case no longer violates its clause (remove the entry from known_findings.json)")
+		return
+	}
+	msg := err.Error()
+	if len(msg) > 600 {
+		msg = msg[:600] + "..."
+	}
+	vt.KnownFinding(knownNativeNoCall, msg)
 }
 
 func indexOf(s, sub string) int {
